@@ -78,16 +78,16 @@ func (i Invocation) Materialise(inDir string) (spec, cfg string, err error) {
 }
 
 type Sched struct {
-	Tape          *tape.Tape
-	Active        map[int]bool // nil = all sites
-	ClockOffset   time.Duration
-	FaultAt       int // -1 none
-	Kind          string
-	TornNum       int
-	TornDen       int
-	Ambient       int
-	SiteSeeds     map[int]uint32 // per-site permutation seeds (nil: permutations are drawn from Tape)
-	Stall         bool // every timer/deadline the generator sets has already expired (frozen or starved process)
+	Tape        *tape.Tape
+	Active      map[int]bool // nil = all sites
+	ClockOffset time.Duration
+	FaultAt     int // -1 none
+	Kind        string
+	TornNum     int
+	TornDen     int
+	Ambient     int
+	SiteSeeds   map[int]uint32 // per-site permutation seeds (nil: permutations are drawn from Tape)
+	Stall       bool           // every timer/deadline the generator sets has already expired (frozen or starved process)
 	// RelPaths: change into the directory above the out dir and hand the generator relative paths
 	// (the way the CLI is normally used), instead of absolute ones.
 	RelPaths bool
